@@ -23,9 +23,14 @@ type Execution struct {
 }
 
 func NewExecution(query promql.Query, pool *model.VectorPool, opts *query.Options) *Execution {
+	// The remote result has a point for exactly those steps at which the remote
+	// expression has a value. Looking back from a step without a point would
+	// extend series that ended and resurrect samples that went stale remotely.
+	remoteOpts := *opts
+	remoteOpts.LookbackDelta = 0
 	return &Execution{
 		query:          query,
-		vectorSelector: scan.NewVectorSelector(pool, newStorageFromQuery(query), opts, 0, 0, 1),
+		vectorSelector: scan.NewVectorSelector(pool, newStorageFromQuery(query), &remoteOpts, 0, 0, 1),
 	}
 }
 
